@@ -133,6 +133,34 @@ def base3dc(band=4):
     return n
 
 
+def base3dr():
+    """base3d + a third adjusted point R (polar 3-D sights from A and B, one levelled line): the network of the
+    coords.* members; every unknown stays determined without the <coordinates> cluster"""
+    n = base3d()
+    n.points.append(P("R", xy="adj", zs="adj"))
+    for c in n.clusters[:2]:
+        c.obs += [Obs("direction", c.frm, "R", stdev=10), Obs("s-distance", c.frm, "R", stdev=5), Obs("z-angle", c.frm, "R", stdev=15)]
+    _cl(n, "height-differences").obs.append(Obs("dh", "C", "R", stdev=3))
+    return n
+
+
+COORD_PARTS = ("xy", "z", "xyz")
+COORD_IDS = {2: ("PQ", "PP"), 3: ("PQR", "PPQ", "PQP", "PQQ", "PPP")}      # every pattern of equal / different neighbours
+
+
+def coord_sequences():
+    """every sequence of 2 and 3 <point> elements of a <coordinates> cluster over the observed components
+    {xy, z, xyz}, with every pattern of distinct / repeated point ids (the input format puts no restriction on
+    repetitions: each element appends its observations x y / z / x y z to the cluster) -> [(components, ids)]"""
+    import itertools
+    out = []
+    for n in (2, 3):
+        for seq in itertools.product(COORD_PARTS, repeat=n):
+            for ids in COORD_IDS[n]:
+                out.append((seq, ids))
+    return out
+
+
 def baselev():
     pts = [P("A", zs="fix"), P("B", zs="fix"), P("P", zs="adj"), P("Q", zs="adj"), P("R", zs="adj")]
     cl = [Cluster("height-differences", obs=[
@@ -200,6 +228,15 @@ def family(noise=1.0, geom=0):
     _cl(n, "coordinates").obs = [Obs("coord", to="P", comps="xyz"), Obs("coord", to="Q", comps="z"), Obs("coord", to="Q", comps="xy")]
     _cl(n, "coordinates").cov = cov_family(6, 2, 100.0)
     add("coord.parts", n)
+    # every order of xy-only / z-only / xyz points in one cluster (2 and 3 elements, distinct and repeated ids),
+    # diagonal and banded covariance matrix: coords.<components>.<ids>.cov<band>
+    for seq, ids in coord_sequences():
+        dim = sum(len(c) for c in seq)
+        for b in (0, 1):
+            n = base3dr()
+            n.clusters.append(Cluster("coordinates", obs=[Obs("coord", to=i, comps=c) for c, i in zip(seq, ids)],
+                                      cov=cov_family(dim, b, 100.0)))
+            add("coords.%s.%s.cov%d" % ("+".join(seq), ids, b), n)
 
     # ---- instrument / target heights
     n = base3d()
